@@ -183,8 +183,9 @@ func (c *Ctx) implFn(it types.Type) string {
 		c.seenIfaceList = append(c.seenIfaceList, it)
 		c.declareFun(fn, []string{"Int"}, "Bool")
 		func() {
-			defer func(q int) { c.quant = q }(c.quant)
+			defer func(q, b int) { c.quant, c.curTopBlock = q, b }(c.quant, c.curTopBlock)
 			c.quant = 0
+			c.curTopBlock = -1
 			c.assumeAlways(not(app(fn, "0")))
 		}()
 		for _, t := range c.seenTypeList {
@@ -200,8 +201,9 @@ func (c *Ctx) implFact(t, it types.Type) {
 		return
 	}
 	// closed facts: must be recorded even when first needed under a quantifier
-	defer func(q int) { c.quant = q }(c.quant)
+	defer func(q, b int) { c.quant, c.curTopBlock = q, b }(c.quant, c.curTopBlock)
 	c.quant = 0
+	c.curTopBlock = -1 // a closed, global fact: relevant to every obligation
 	fn := sym("impl." + typeName(it))
 	tag := num(int64(c.prog.typeTag(t)))
 	if types.Implements(t, iface) {
@@ -334,6 +336,10 @@ func (c *Ctx) execTypeAssert(fr *Frame, st *State, x *ssa.TypeAssert) {
 		res = &Val{T: x.AssertedType, Term: v.Term}
 	} else {
 		res = c.unbox(st, app("ival", v.Term), x.AssertedType)
+		if c.prog.NonNilDyn[typeName(x.AssertedType)] && res.Term != "" {
+			c.assumed["typed nil "+typeName(x.AssertedType)+" never occurs inside an interface value (its own methods would panic)"] = true
+			c.assumeAlways(implies(ok, not(eq(res.Term, "0"))))
+		}
 	}
 	if x.CommaOk {
 		// on failure the value is the zero value
@@ -374,7 +380,7 @@ func (c *Ctx) convert(fr *Frame, st *State, v *Val, to types.Type, site ssa.Inst
 			return &Val{T: to, Term: v.Term}
 		}
 		return c.wrap(to, v.Term)
-	case fs == "Str" && ts == "Slice": // []byte(s) / []rune(s)
+	case fs == "Str" && ts == "Slice" && !isRuneSlice(to): // []byte(s)
 		et := to.Underlying().(*types.Slice).Elem()
 		if b, ok := et.Underlying().(*types.Basic); !ok || b.Kind() != types.Uint8 {
 			c.unsupported("conversion string -> %s", shortTypeName(to))
@@ -390,7 +396,7 @@ func (c *Ctx) convert(fr *Frame, st *State, v *Val, to types.Type, site ssa.Inst
 		c.declareFun("bytesid", []string{"(Array Int Int)", "Int", "Int"}, "Int")
 		c.assumeAlways(eq(app("bytesid", arr, "0", ln), app("strid", v.Term)))
 		return &Val{T: to, Term: c.define("sl", "Slice", app("mkSlice", ref, "0", ln, ln))}
-	case fs == "Slice" && ts == "Str": // string(b)
+	case fs == "Slice" && ts == "Str" && !isRuneSlice(from): // string(b)
 		et := from.Underlying().(*types.Slice).Elem()
 		if b, ok := et.Underlying().(*types.Basic); !ok || b.Kind() != types.Uint8 {
 			c.unsupported("conversion %s -> string", shortTypeName(from))
@@ -407,6 +413,20 @@ func (c *Ctx) convert(fr *Frame, st *State, v *Val, to types.Type, site ssa.Inst
 		res := c.define("s", "Str", app("mkStr", ref, "0", ln))
 		c.assumeAlways(eq(app("strid", res), app("bytesid", curN, app("loff", v.Term), ln)))
 		return &Val{T: to, Term: res}
+	case fs == "Str" && ts == "Slice" && isRuneSlice(to): // []rune(s): fresh slice, one rune per 1..4 bytes
+		ref := c.allocRef(st, "runes")
+		n := c.fresh("nrunes", "Int")
+		c.assumeAlways(and(app("<=", "0", n), app("<=", n, app("slen", v.Term)), implies(app(">", app("slen", v.Term), "0"), app(">", n, "0"))))
+		et := to.Underlying().(*types.Slice).Elem()
+		p := &Ptr{Comp: "E:" + typeName(et), Dim: 2, Ref: ref, T0: et, Elem: et}
+		c.storeLeaf(st, p, nil, c.fresh("runearr", "(Array Int Int)"))
+		return &Val{T: to, Term: c.define("sl", "Slice", app("mkSlice", ref, "0", n, n))}
+	case fs == "Slice" && ts == "Str" && isRuneSlice(from): // string([]rune): fresh string of 0..4 bytes per rune
+		ref := c.fresh("strref", "Int")
+		c.assumeAlways(app("<", ref, "(- 1000000)"))
+		n := c.fresh("nbytes", "Int")
+		c.assumeAlways(and(app("<=", app("llen", v.Term), n), app("<=", n, app("*", "4", app("llen", v.Term)))))
+		return &Val{T: to, Term: c.define("s", "Str", app("mkStr", ref, "0", n))}
 	case fs == "Int" && ts == "Str": // string(rune)
 		return c.uninterp("runeToString", to, v)
 	case (fs == "Int" || fs == "F64") && (ts == "F64" || ts == "Int"):
@@ -505,6 +525,15 @@ func (c *Ctx) closureBindings(fr *Frame, st *State, x *ssa.MakeClosure, id strin
 		c.closures = map[string]*closureInfo{}
 	}
 	ci := &closureInfo{fn: x.Fn.(*ssa.Function)}
+	for _, b := range ci.fn.Blocks {
+		for _, in := range b.Instrs {
+			if stt, ok := in.(*ssa.Store); ok {
+				if _, isFV := stt.Addr.(*ssa.FreeVar); isFV {
+					c.unsupported("closure %s assigns to a captured variable", ci.fn.Name())
+				}
+			}
+		}
+	}
 	for _, b := range x.Bindings {
 		ci.bindings = append(ci.bindings, c.val(fr, st, b))
 	}
@@ -523,4 +552,13 @@ func hasPrefixAny(s string, ps ...string) bool {
 		}
 	}
 	return false
+}
+
+func isRuneSlice(t types.Type) bool {
+	sl, ok := t.Underlying().(*types.Slice)
+	if !ok {
+		return false
+	}
+	b, ok := sl.Elem().Underlying().(*types.Basic)
+	return ok && b.Kind() == types.Int32
 }
